@@ -106,7 +106,13 @@ theorem v1_C01_db_roundtrip (o : FOps) (d d' : Db) (id : Int) (x : Snap) (hn : S
     ∃ y, Spec.normalize d.schema x = some y ∧ dbSnap o d' id = .ok y := by
   unfold dbUpdate at h
   cases hp : d.rows id with
-  | none => rw [hp] at h; cases h
+  | none =>
+    rw [hp] at h
+    simp only at h
+    split at h
+    · cases h
+    · split at h <;> cases h
+    · cases h
   | some prior =>
     rw [hp] at h
     simp only at h
